@@ -243,6 +243,10 @@ func trunc(s string, n int) string {
 	return s
 }
 
+// maxRefSteps bounds the cost of one simulated run (steps of the sequential
+// reference pass); thorough runs allow more.
+var maxRefSteps int64 = 1500000
+
 // runConc executes one scenario. If sc.Sched.NumSites == 0 the schedule has not
 // been drawn yet (generation mode) and is drawn after the reference pass.
 func runConc(sc *Scenario, st *SiteTable, raceLog *raceLogReader) *Outcome {
@@ -272,6 +276,12 @@ func runConc(sc *Scenario, st *SiteTable, raceLog *raceLogReader) *Outcome {
 		}
 	}})
 	out.EstSteps = refRes.Steps
+	if refRes.Steps > maxRefSteps && sc.Sched.NumSites == 0 {
+		// too expensive for the race-instrumented build (a quadratic path on a long
+		// haystack): skipped and counted, not silently dropped
+		out.Class = "skipped"
+		return out
+	}
 	if sc.Sched.NumSites == 0 {
 		genSchedule(sc, refRes.Steps, refRes.SiteVisits, st)
 	}
